@@ -359,7 +359,50 @@ def rule_h(ctx, out):
     C04.rule_i(ctx, out)
 
 
+def rule_i(ctx, out):
+    """init_progr_len = instructions of the block - discount_op is published as an upper bound: a unit of discount must stand for an
+    instruction that is gone whatever the surrounding stack looks like.  A store that the memory rules remove is such an instruction.  A load
+    that is *forwarded* (replaced by the value stored before) is not: its consumer still needs that value, which now has to be duplicated
+    and possibly swapped back under the store's operands (`DUP2 DUP2 SSTORE SLOAD` needs 4 instructions before and after).  simplify_memory
+    is interpreted on every access sequence of the small family; the discount it takes may not exceed the number of stores it removed."""
+    from ..core import memrules as mr
+    entry = f"{GO}.simplify_memory"
+    eng = mr.MemEngine(ctx, entry, GO)
+    n = 0
+    seen = set()
+
+    def stores(seq):
+        return sum(1 for e in seq if "store" in e[0][-1])
+    for loc in ("memory", "storage"):
+        addrs = ["s(0)", "s(1)", "32"] if loc == "memory" else ["s(0)", "s(1)", "1"]
+        for seq in mr.sequences(loc, 3, addrs, ["s(2)", "7"], False, loc == "memory"):
+            r = eng.run(seq, loc)
+            if r is None or r.get("mismatch"):
+                continue        # left alone, or wrong for another reason (C02.h reports that)
+            last = eng.last
+            removed = stores(last["before"]) - stores(last["after"])
+            n += 1
+            if last["discount"] <= removed:
+                out.instances += 1
+                out.satisfied += 1
+                if n % 200 == 1:
+                    out.samples.append({"sequence": mr.show(last["before"]), "after": mr.show(last["after"]), "discount": last["discount"], "stores_removed": removed})
+                continue
+            gone = sorted({e[0][-1].rstrip("0123456789") for e in last["before"] if e not in last["after"] and "store" not in e[0][-1]}) or ["?"]
+            key = f"discount-exceeds-removed-stores:{loc}:{'+'.join(gone)}"
+            if key in seen:
+                out.instances += 1
+                continue
+            seen.add(key)
+            out.bad(key, f"simplify_memory rewrites [{mr.show(last['before'])}] into [{mr.show(last['after'])}] and takes a discount of {last['discount']} with "
+                    f"{removed} store(s) removed: a forwarded {gone[0]} does not shorten the block for sure (its value must be duplicated for the consumer), so "
+                    f"init_progr_len can fall below the shortest realizing sequence", where(ctx.func(entry)))
+    if n < 300:
+        raise AnalysisError(f"simplify_memory rewrote only {n} sequences of the family")
+
+
 RULES = [
+    ("C16.i", "the memory rules discount at most one instruction per store they remove", 300, rule_i),
     ("C16.h", "the instruction count behind min_length takes every store exactly once", 4, rule_h),
     ("C16.g", "a revisited instruction is charged only when it must be duplicated", 4, rule_g),
     ("C16.f", "upper-bound start values admit every realizing sequence", 15, rule_f),
